@@ -217,12 +217,11 @@ impl DebugInformation {
             ecx.location().global_pc.into(),
             EhFrame::cie_from_offset,
         )?;
-        self.evaluate_cfa(
-            debugee,
-            &DwarfRegisterMap::from(RegisterMap::current(ecx.pid_on_focus())?),
-            row,
-            ecx,
-        )
+        // the CFA rule is relative to the registers of the frame in focus, not to the
+        // current (frame 0) registers of the thread
+        let mut registers = DwarfRegisterMap::from(RegisterMap::current(ecx.pid_on_focus())?);
+        debugee.restore_registers_at_frame(ecx.pid_on_focus(), &mut registers, ecx.frame_num())?;
+        self.evaluate_cfa(debugee, &registers, row, ecx)
     }
 
     pub fn debug_addr(&self) -> &DebugAddr<EndianArcSlice> {
